@@ -158,9 +158,14 @@ class Check:
         # (a harmless rewrite of a pure function) while the theorems about the hand model and the
         # correspondence on every case still check, the property is still shown to hold: that is reported as a
         # note in evidence (`secondary_ties_broken`), not as a violation.
+        # functions whose current source the translators could not handle: the pinned translation was used so
+        # that models importing Tbx.Gen still build; the regenerated-text tie for them is broken (a note)
+        fb = list((self.gen_info.get("functions") or {}).get("fallback", [])) + \
+            list((self.gen_info.get("loop_functions") or {}).get("fallback", []))
+        self.gen_fallback = fb
         sec_targets = [t for t in cfg.get("lean_targets", []) if t in cfg.get("secondary_ties", [])]
         sec_audits = [a for a in (cfg.get("audit") if isinstance(cfg.get("audit"), list) else [cfg.get("audit")]) if a and a[:-5].replace("/", ".") in [t.replace("Props", "Audit") for t in sec_targets]]
-        self.secondary_broken = []
+        self.secondary_broken = [("translator-fallback", f, "current source outside the translator's subset; pinned translation used") for f in fb]
         targets = [t for t in cfg.get("lean_targets", []) if t not in sec_targets] + [cfg["drv_exe"]]
         rc, out, dt = run(["lake", "build"] + targets, cwd=LEAN, timeout=3600)
         self.lake_s = dt
@@ -269,7 +274,8 @@ class Check:
         return dst
 
     def drv_bin(self):
-        return os.path.join(LEAN, ".lake", "build", "bin", self.cfg["drv_exe"])
+        priv = os.path.join(self.rundir, self.cfg["drv_exe"])
+        return priv if os.path.exists(priv) else os.path.join(LEAN, ".lake", "build", "bin", self.cfg["drv_exe"])
 
     # -- step 5: execution ----------------------------------------------------------------------
     def exec_cases(self, cases_path, out_path):
@@ -468,7 +474,17 @@ class Check:
         with open(os.path.join(BUILD, "lock"), "w") as lk:
             fcntl.flock(lk, fcntl.LOCK_EX)
             self.lean_build()
-            return self.cargo_build()
+            ok = self.cargo_build()
+            # private copies of both executables, taken while the lock is held: a concurrent check (another
+            # property, or a TBX_REPO run that regenerates Gen/ from another tree) may rebuild them afterwards
+            try:
+                self.gen_bin()
+                src = os.path.join(LEAN, ".lake", "build", "bin", self.cfg["drv_exe"])
+                if os.path.exists(src):
+                    shutil.copy2(src, os.path.join(self.rundir, self.cfg["drv_exe"]))
+            except OSError:
+                pass
+            return ok
 
     def run_lock(self):
         os.makedirs(os.path.join(BUILD, "run"), exist_ok=True)
